@@ -58,6 +58,10 @@ def tame_frag(tape, total_bytes, budget=150000):
     m = min_frag(tape)
     if not isinstance(tape, dict) or m is None:
         return tape
+    if EMPTY_READ in tape["cycle"]:
+        # every empty read costs 1 ms of virtual time: keep their number far below read_timeout_s (10 s) -- otherwise the
+        # generated transport is simply slower than the timeout and the library rightly raises AdbTimeoutError
+        budget = min(budget, 1500)
     need = total_bytes // max(1, budget) + 1
     if m >= need:
         return tape
